@@ -1,4 +1,4 @@
-import HpoProofs.Binary
+import HpoProofs.BinaryLoad
 /-!
 # C08 — the decoder honours layouts v1–v3 and never accepts truncated or extended files
 
@@ -73,6 +73,29 @@ theorem C08_decode_v (fv : Nat) (f : RawFacts) (h : FileOK fv f) :
   have hb := decodeBytes_enc_tail fv f h []
   simp only [List.append_nil, finish, List.isEmpty_nil, ↓reduceIte, Res.bind] at hv hr hb
   exact ⟨hv, hr, hb⟩
+
+/-- … and of the loaded ontology, proved through ALL builder steps of `from_bytes` for v2 / v3
+files: whenever the load succeeds (term ids unique), the ontology has the file's release version and,
+in file order, its terms with id, name, obsolete flag and replacement. (The remaining observations —
+relations, annotations, information content — are `Onto.loadFacts` of the decoded records by
+`C08_decode_v`; their characterisation is C01 / C02 / C03.) -/
+theorem C08_decode_terms (fv : Nat) (hfv : fv = 2 ∨ fv = 3) (f : RawFacts) (h : FileOK fv f)
+    (hnd : (f.terms.map (·.id)).Nodup) (o' : Onto) (hload : decodeBytes (encodeRaw fv f) = .ok o') :
+    o'.version = f.version ∧
+    o'.terms.map (fun t => (t.id, t.name, t.obsolete, t.replacement)) =
+      f.terms.map (fun t => (t.id, t.name, t.obsolete, t.replacement)) := by
+  have h1 : fv ≠ 1 := by omega
+  rw [(C08_decode_v fv f h).2.2] at hload
+  have hp : (projFacts fv f).terms = f.terms.map cleanTerm := by simp [projFacts, projTerm, h1]
+  have := loadFacts_terms fv h1 (projFacts fv f) o'
+    (by rw [hp]; intro t ht; obtain ⟨t0, ht0, rfl⟩ := List.mem_map.1 ht; exact (h.facts.terms t0 ht0).1)
+    (by rw [hp]; simpa [List.map_map, Function.comp_def, cleanTerm] using hnd) hload
+  refine ⟨by simpa [projFacts, h1] using this.2, ?_⟩
+  have e := this.1
+  rw [hp] at e
+  have e2 : f.terms.map (core ∘ cleanTerm) = f.terms.map (fun t => (t.id, t.name, t.obsolete, t.replacement)) := rfl
+  rw [List.map_map, e2] at e
+  exact e
 
 /-- Record order (hash-map iteration order of the writer): a file with the records of every
 section permuted is a valid file, and decodes to exactly the permuted records — none lost,
